@@ -175,6 +175,8 @@ func ComputeRegistryProcessData(spec *common.Spec, flats []common.FlatValidator,
 		}
 		if exit > exitQueueEnd {
 			exitQueueEnd = exit
+			// churn is counted per exit epoch: a later queue end starts a new count
+			exitQueueEndChurn = 0
 		}
 		if exit == exitQueueEnd {
 			exitQueueEndChurn++
